@@ -36,6 +36,8 @@ type HarnessResult struct {
 	WallS      float64                           `json:"wall_s"`
 	Funcs      []string                          `json:"functions_encoded"`
 	Solver     string                            `json:"solver"`
+	XChecked   int                               `json:"cross_checked"`
+	XSecond    string                            `json:"cross_solver,omitempty"`
 	ModelOnly  bool                              `json:"model_only"`
 }
 
@@ -270,6 +272,10 @@ func runHarness(prog *ssa.Program, pkg *ssa.Package, fn *ssa.Function, solver, t
 		return
 	}
 	defer sol.Close()
+	sol.XEvery = 500
+	if tier == "thorough" {
+		sol.XEvery = 100
+	}
 	e := &Engine{c: ctx, sol: sol, prog: prog, finfo: map[*ssa.Function]*fnInfo{}, globals: map[*ssa.Global]int{},
 		inited: map[*ssa.Package]bool{}, vioSites: map[string]bool{}, reached: res.Reached, maxSteps: maxSteps,
 		deadline: t0.Add(time.Duration(timeout) * time.Second), verbose: verbose, funcsSeen: map[string]bool{},
@@ -287,6 +293,7 @@ func runHarness(prog *ssa.Program, pkg *ssa.Package, fn *ssa.Function, solver, t
 		res.SolverS = sol.Time.Seconds()
 		res.Violations = e.violations
 		res.Solver = e.sol.name
+		res.XChecked, res.XSecond = e.sol.XChecked, e.sol.XSecond
 		res.ModelOnly = e.usedModels
 		for f := range e.funcsSeen {
 			if strings.Contains(f, "IrineSistiana") && !strings.Contains(f, "VerifH_") && !strings.Contains(f, "verifrt") {
